@@ -17,6 +17,7 @@ EXPLANATION = ("Three-way agreement decided from the source on every run: for 43
                "of the three. Not decided: that an independent decoder recovers the logical content; that a corpus reads."
                " (R7) plain value store: the declared data size equals what write_data emits (the remembered key changes only where the accumulator advances); (R8) cluster pointers are tail offsets (= C01-R6)."
                " Added later: (R9) counts are compared with their field's maximum before they are narrowed; (R10) positions stored in a pack written at a recorded origin are pack-relative; (R11) offset widths come from the total (= C02-R8); (R12) column widths are chosen on final positions (= C15-R1). (R13) every table is one checked block (= C01-R18). (R14) every counted value is sized (= C02-R17).")
+EXPLANATION += ' Batch 11: (R15) every layout Property::Padding(n) the creator builds has n bounded by 16 (the size nibble).'
 ASSUMPTIONS = ["the reference table was written from the pinned sources (DESIGN.md Appendix A)", "zerocopy/byteorder LE/BE helpers behave as documented",
                "rustc HIR/MIR construction and trait resolution"]
 
@@ -751,7 +752,47 @@ def r14_every_value_takes_part_in_the_sizing(cx):
     c02.r17_every_value_takes_part_in_the_sizing(cx, rule="R14")
 
 
+def r15_padding_fits_its_nibble(cx):
+    """'written bytes follow the documented layout': a padding property is one byte, `0000 SSSS` with SSSS = size - 1, so it
+    covers 1 to 16 bytes (Appendix A). Wherever the creator builds a layout `Property::Padding(n)`, n is a constant of that
+    range or is bounded by 16 on the way (a dominating comparison with a constant whose other arm does not get there, or a
+    `min` with such a constant): a longer run spills into the type nibble and is read back as another property."""
+    F = cx.F
+    MAXPAD = 16
+    n = 0
+    for f in F.live_fns:
+        if "blocks" not in f or not re.search(r"^<?creator::directory_pack::", f["name"]):
+            continue
+        b = None
+        for i, blk in enumerate(f["blocks"]):
+            if blk.get("cleanup"):
+                continue
+            for st in blk["s"]:
+                rv = st.get("rv") or {}
+                if st["k"] == "assign" and rv.get("k") == "agg" and rv.get("variant") == "Padding" and re.search(r"layout::property::Property", rv.get("adt", "")) and rv["fields"]:
+                    b = b or F.body(f)
+                    n += 1
+                    op = rv["fields"][0]
+                    c = op_const_deep(b, op)
+                    if c is not None:
+                        ok, how = 1 <= c <= MAXPAD, "constant %s" % c
+                    else:
+                        src = b.origins(op)
+                        bounds = [bd for _, bd in upper_bound_guards(b, i, src)]
+                        mins = []
+                        for x in src:
+                            if x[0] == "call" and call_is(b.term(x[1]), r"cmp::min(::<.*>)?$|cmp::Ord>::min$|::min$"):
+                                mins += [op_const_deep(b, a) for a in b.term(x[1])["args"] if op_const_deep(b, a) is not None]
+                        best = min(bounds + mins) if bounds + mins else None
+                        ok, how = best is not None and best <= MAXPAD, "bounded by %s" % best
+                    nm = re.sub(r"<.*?>", "", f["name"]).split("::")[-1]
+                    cx.ob("R15", "R15/%s/padding-at-most-16" % nm, ok, f, "Property::Padding(n) with n %s (a padding property describes 1 to 16 bytes)" % how, ln=st.get("ln"))
+    if n < 2:
+        raise AnchorLost("constructions of layout Property::Padding: %d" % n)
+
+
 RULES = [
+    ("R15", r15_padding_fits_its_nibble, 2),
     ("R14", r14_every_value_takes_part_in_the_sizing, 1),
     ("R13", r13_tables_are_single_blocks, 5),
     ("R12", r12_widths_chosen_on_final_positions, 7),
